@@ -1,7 +1,17 @@
 import BpModel.All
 import BpProofs.Ops
+import BpProofs.JsonOneof
 /-
   C07 — oneof exclusivity holds after any history of operations.
+
+  The JSON half (second part of the file): in `to_dict()` / `to_json()` output with
+  `include_default_values = false` an unselected member of a oneof group has no entry, the
+  selected member has exactly one (its default value included; the exact exception is a
+  selected member holding `None` in a message / wrapper / 64-bit / enum field,
+  `skipsSelected`), so at most one member of each group appears and it is the one
+  `which_one_of` reports — `json_exclusive`, and after any history `json_exclusive_after_history`.
+  Guard (decidable): `membersOk` = oneof members are not repeated and not maps (protoc
+  admits neither); witnesses below show both parts of the guard are needed.
 -/
 namespace Bp.C07
 open Bp Gen
@@ -200,5 +210,204 @@ example : WfClass S2 0 := by
   rcases hf with rfl | rfl <;> simp at hg <;> (subst hg; decide)
 example : dumpVal S2 (runHistory S2 (fresh S2 0) [.setattr 0 (.int 5), .setattr 1 (.str [])]) = .ok [0x12, 0x00] := by decide
 example : dumpVal S2 (runHistory S2 (fresh S2 0) [.setattr 1 (.str [104]), .parse [0x08, 0x00]]) = .ok [0x08, 0x00] := by decide
+
+/-! ## the JSON half: at most one member of each group in `to_dict()` / `to_json()` -/
+
+/-- `betterproto.which_one_of(m, group)`, as a field index -/
+def whichOneOf : Val → Nat → Option Nat
+  | .msg _ _ _ _ cur, g => cur.getD g Option.none
+  | _, _ => Option.none
+
+/-- raw slot `i` of an instance -/
+def slotOf : Val → Nat → Val
+  | .msg _ sl _ _ _, i => sl.getD i .ph
+  | _, _ => .ph
+
+/-- the fields that have an entry in `m.to_dict(casing, include_default_values=False)`, in
+    output order (field indices) -/
+def dictIdx (S : Schema) (E : Enums) (cs : KeyCase) : Val → List Nat
+  | .msg c sl _ _ cur => emittedIdx S E cs false (fieldsOf S c) cur 0 sl
+  | _ => []
+
+/-- every instance has one raw slot per field -/
+def FullVal (S : Schema) : Val → Prop
+  | .msg c sl _ _ _ => sl.length = (fieldsOf S c).length
+  | _ => False
+
+/-- `dictIdx` is what it says: `to_dict` returns the dict whose keys are, in order, the
+    keys of the fields in `dictIdx` (and `to_json` is `json.dumps` of that dict) -/
+theorem toDict_keys (S : Schema) (E : Enums) (cs : KeyCase) (c : Nat) (sl : List Val) (ow : Bool) (unk : Bytes)
+    (cur : List (Option Nat)) :
+    ∃ kvs, toDict S E cs false (.msg c sl ow unk cur) = mkObj kvs ∧
+      kvs.map (·.1) = (dictIdx S E cs (.msg c sl ow unk cur)).map (keyAt cs (fieldsOf S c)) :=
+  ⟨_, by rw [toDict], toDictKVs_keys S E cs false _ cur 0 sl⟩
+
+/-- no field is written twice -/
+theorem dictIdx_nodup (S : Schema) (E : Enums) (cs : KeyCase) (m : Val) : (dictIdx S E cs m).Nodup := by
+  cases m <;> first | exact List.nodup_nil | exact emittedIdx_nodup ..
+
+/-- **JSON exclusivity**, for every schema, class, casing and every instance of a class whose
+    oneof members are as protoc admits them (`membersOk`):
+    1. a member of group `g` that is not the selected one has no entry;
+    2. the selected member has an entry — even when it holds its default value — unless it
+       holds `None` in a message / wrapper / 64-bit / enum field (`skipsSelected`, exact);
+    3. any member of `g` that has an entry is `which_one_of`'s answer; the entries of `g`
+       are the list `[selected]` (or `[]` in the `None` case): at most one.
+    (The oneof invariant is not needed for this: `to_dict` goes through `getattr`, which hides
+    an unselected member whatever its raw slot holds.  The invariant adds that nothing is
+    hidden: `unselected_is_unset`.) -/
+theorem json_exclusive (S : Schema) (E : Enums) (cs : KeyCase) (c : Nat) (sl : List Val) (ow : Bool) (unk : Bytes)
+    (cur : List (Option Nat)) (hm : membersOk (fieldsOf S c) = true)
+    (i : Nat) (f : FieldD) (g : Nat) (hf : (fieldsOf S c)[i]? = some f) (hg : f.group = some g) :
+    let m := Val.msg c sl ow unk cur
+    (whichOneOf m g ≠ some i → i ∉ dictIdx S E cs m)
+    ∧ (whichOneOf m g = some i → i < sl.length →
+        ((i ∈ dictIdx S E cs m ↔ skipsSelected f (slotOf m i) = false)
+         ∧ (dictIdx S E cs m).filter (inGroup (fieldsOf S c) g) = if skipsSelected f (slotOf m i) then [] else [i]))
+    ∧ (i ∈ dictIdx S E cs m → whichOneOf m g = some i) := by
+  refine ⟨?_, ?_, ?_⟩
+  · exact emitted_unselected S E cs _ cur sl hm i f g hf hg
+  · intro hsel hl
+    exact ⟨emitted_selected S E cs _ cur sl hm i f g hf hg hsel hl,
+      group_entries_selected S E cs _ cur sl hm i f g hf hg hsel hl⟩
+  · exact emitted_is_selected S E cs _ cur sl hm i f g hf hg
+
+/-- **at most one member of each group appears**: two entries of members of one group are
+    the same entry -/
+theorem json_at_most_one (S : Schema) (E : Enums) (cs : KeyCase) (c : Nat) (sl : List Val) (ow : Bool) (unk : Bytes)
+    (cur : List (Option Nat)) (hm : membersOk (fieldsOf S c) = true) (g i j : Nat) (fi fj : FieldD)
+    (hfi : (fieldsOf S c)[i]? = some fi) (hgi : fi.group = some g)
+    (hfj : (fieldsOf S c)[j]? = some fj) (hgj : fj.group = some g)
+    (hi : i ∈ dictIdx S E cs (.msg c sl ow unk cur)) (hj : j ∈ dictIdx S E cs (.msg c sl ow unk cur)) : i = j := by
+  have a := emitted_is_selected S E cs _ cur sl hm i fi g hfi hgi hi
+  have b := emitted_is_selected S E cs _ cur sl hm j fj g hfj hgj hj
+  rw [a] at b; injection b
+
+/-- a group with no selected member has no entry at all -/
+theorem json_none_selected (S : Schema) (E : Enums) (cs : KeyCase) (c : Nat) (sl : List Val) (ow : Bool) (unk : Bytes)
+    (cur : List (Option Nat)) (hm : membersOk (fieldsOf S c) = true) (g : Nat)
+    (h : whichOneOf (.msg c sl ow unk cur) g = Option.none) :
+    (dictIdx S E cs (.msg c sl ow unk cur)).filter (inGroup (fieldsOf S c) g) = [] := by
+  apply group_entries_none S E cs _ cur sl hm g
+  intro i f _ _ e
+  simp only [whichOneOf] at h
+  rw [h] at e; cases e
+
+/-- the number of raw slots is kept by every operation -/
+theorem full_step (S : Schema) (m m' : Val) (op : Op) (h : FullVal S m) (hs : stepOp S m op = .ok m') : FullVal S m' := by
+  cases m with
+  | msg c sl ow unk cur =>
+    obtain ⟨sl', ow', unk', cur', e, hl⟩ := stepOp_full S c sl ow unk cur op m' h hs
+    subst e; exact hl
+  | _ => exact absurd h (by simp [FullVal])
+
+theorem full_history (S : Schema) (m : Val) (ops : List Op) (h : FullVal S m) : FullVal S (runHistory S m ops) := by
+  induction ops generalizing m with
+  | nil => exact h
+  | cons op ops ih =>
+    simp only [runHistory]
+    cases hs : stepOp S m op with
+    | error e => exact ih m h
+    | ok m' => exact ih m' (full_step S m m' op h hs)
+
+theorem full_fresh (S : Schema) (c : Nat) : FullVal S (fresh S c) := by simp [FullVal, fresh]
+
+/-- **after ANY history of operations** on an instance of class `c` (assignments of any value,
+    reads, `parse` of any bytes, instance `from_dict`, copy, deepcopy, pickle, observers; a
+    raising operation leaves the instance as it was), for every member `i` of every group `g`:
+    the result `m` is an instance of `c` satisfying the oneof invariant, and in
+    `m.to_dict()` / `m.to_json()`
+    * `i` has no entry unless it is `which_one_of(m, g)` — and then its raw slot is unset
+      anyway, so nothing is lost;
+    * if `i` is `which_one_of(m, g)` the entries of group `g` are exactly `[i]` (one entry, its
+      default value included), or `[]` when `i` holds `None` in a message / wrapper / 64-bit /
+      enum field. -/
+theorem json_exclusive_after_history (S : Schema) (E : Enums) (cs : KeyCase) (c : Nat)
+    (hw : WfClass S c) (hm : membersOk (fieldsOf S c) = true)
+    (m0 : Val) (ops : List Op) (hc : classOf m0 = some c) (h0 : InvVal S m0) (hl0 : FullVal S m0)
+    (i : Nat) (f : FieldD) (g : Nat) (hf : (fieldsOf S c)[i]? = some f) (hg : f.group = some g) :
+    let m := runHistory S m0 ops
+    InvVal S m ∧ classOf m = some c
+    ∧ (whichOneOf m g ≠ some i → i ∉ dictIdx S E cs m ∧ SentinelAt f (slotOf m i))
+    ∧ (whichOneOf m g = some i →
+        (dictIdx S E cs m).filter (inGroup (fieldsOf S c) g) = if skipsSelected f (slotOf m i) then [] else [i])
+    ∧ (i ∈ dictIdx S E cs m → whichOneOf m g = some i) := by
+  intro m
+  obtain ⟨hi, hcl⟩ := inv_history S c hw m0 ops hc h0
+  have hfull := full_history S m0 ops hl0
+  refine ⟨hi, hcl, ?_⟩
+  change InvVal S m at hi
+  change classOf m = some c at hcl
+  change FullVal S m at hfull
+  generalize m = mm at hi hcl hfull ⊢
+  cases mm with
+  | msg c' sl ow unk cur =>
+    simp only [classOf, Option.some.injEq] at hcl; subst hcl
+    obtain ⟨h1, h2, h3⟩ := json_exclusive S E cs c' sl ow unk cur hm i f g hf hg
+    refine ⟨fun hne => ⟨h1 hne, unselected_is_unset S c' sl ow unk cur hi i f g hf hg hne⟩, ?_, h3⟩
+    intro hsel
+    have hlt : i < sl.length := by
+      have : sl.length = (fieldsOf S c').length := hfull
+      rw [this]
+      rcases Nat.lt_or_ge i (fieldsOf S c').length with h | h
+      · exact h
+      · rw [List.getElem?_eq_none h] at hf; cases hf
+    exact (h2 hsel hlt).2
+  | _ => simp [classOf] at hcl
+
+/-- the history may start at a fresh instance -/
+theorem json_exclusive_from_fresh (S : Schema) (E : Enums) (cs : KeyCase) (c : Nat)
+    (hw : WfClass S c) (hm : membersOk (fieldsOf S c) = true) (ops : List Op)
+    (i : Nat) (f : FieldD) (g : Nat) (hf : (fieldsOf S c)[i]? = some f) (hg : f.group = some g) :
+    let m := runHistory S (fresh S c) ops
+    (whichOneOf m g ≠ some i → i ∉ dictIdx S E cs m)
+    ∧ (whichOneOf m g = some i →
+        (dictIdx S E cs m).filter (inGroup (fieldsOf S c) g) = if skipsSelected f (slotOf m i) then [] else [i]) := by
+  have h := json_exclusive_after_history S E cs c hw hm (fresh S c) ops rfl (inv_fresh S c) (full_fresh S c) i f g hf hg
+  exact ⟨fun hne => (h.2.2.1 hne).1, h.2.2.2.1⟩
+
+/-! non-vacuity on `S2` (group 0 = {a : int32, b : string}) -/
+def dictKeys : JVal → List JKey
+  | .obj ks _ => ks
+  | _ => []
+example : membersOk (fieldsOf S2 0) = true := by decide
+-- set a = 5, then set b = "" (its default): only b is written, and it IS written
+example : dictIdx S2 [] .camel (runHistory S2 (fresh S2 0) [.setattr 0 (.int 5), .setattr 1 (.str [])]) = [1] := by decide
+example : dictKeys (toDict S2 [] .camel false (runHistory S2 (fresh S2 0) [.setattr 0 (.int 5), .setattr 1 (.str [])]))
+    = [.str [98]] := by decide
+-- set b, then parse a record of a: only a (value 0 = default) is written
+example : dictKeys (toDict S2 [] .camel false (runHistory S2 (fresh S2 0) [.setattr 1 (.str [104]), .parse [0x08, 0x00]]))
+    = [.str [97]] := by decide
+example : dictIdx S2 [] .camel (runHistory S2 (fresh S2 0) [.setattr 1 (.str [104]), .parse [0x08, 0x00]]) = [0] := by decide
+example : dictKeys (toDict S2 [] .camel false (fresh S2 0)) = [] := by decide
+
+/-! the exception in (2) is real: a selected member holding `None` is left out — sub-message /
+    wrapper / int64 / enum member — while an int32 / string / bytes / float member holding `None` is written -/
+def S3 : Schema := [{ fields := [{ name := "w", num := 1, ty := .message, wraps := some .int32, group := some 0 },
+                                  { name := "n", num := 2, ty := .int64, group := some 0 },
+                                  { name := "k", num := 3, ty := .int32, group := some 0 }], nGroups := 1 }]
+example : membersOk (fieldsOf S3 0) = true := by decide
+example : whichOneOf (runHistory S3 (fresh S3 0) [.setattr 0 .none]) 0 = some 0
+    ∧ dictIdx S3 [] .camel (runHistory S3 (fresh S3 0) [.setattr 0 .none]) = [] := by decide
+example : whichOneOf (runHistory S3 (fresh S3 0) [.setattr 1 .none]) 0 = some 1
+    ∧ dictIdx S3 [] .camel (runHistory S3 (fresh S3 0) [.setattr 1 .none]) = [] := by decide
+example : dictIdx S3 [] .camel (runHistory S3 (fresh S3 0) [.setattr 2 .none]) = [2] := by decide
+example : dictIdx S3 [] .camel (runHistory S3 (fresh S3 0) [.setattr 0 (.int 0)]) = [0] := by decide
+example : dictIdx S3 [] .camel (runHistory S3 (fresh S3 0) [.setattr 1 (.int 0)]) = [1] := by decide
+
+/-! the guard `membersOk` is needed (schemas protoc rejects): an UNSELECTED repeated-wrapper
+    member is written (`[]`); a SELECTED empty map member is not -/
+def Sbad : Schema := [{ fields := [{ name := "r", num := 1, ty := .message, wraps := some .int32, repeated := true, group := some 0 },
+                                    { name := "k", num := 2, ty := .int32, group := some 0 },
+                                    { name := "mp", num := 3, ty := .map, group := some 0 }], nGroups := 1 }]
+example : whichOneOf (runHistory Sbad (fresh Sbad 0) [.setattr 1 (.int 1)]) 0 = some 1
+    ∧ dictIdx Sbad [] .camel (runHistory Sbad (fresh Sbad 0) [.setattr 1 (.int 1)]) = [0, 1] := by decide
+example : whichOneOf (runHistory Sbad (fresh Sbad 0) [.setattr 2 (.dict [] [])]) 0 = some 2
+    ∧ 2 ∉ dictIdx Sbad [] .camel (runHistory Sbad (fresh Sbad 0) [.setattr 2 (.dict [] [])]) := by decide
+
+#print axioms json_exclusive
+#print axioms json_at_most_one
+#print axioms json_exclusive_after_history
+#print axioms json_exclusive_from_fresh
 
 end Bp.C07
